@@ -694,6 +694,29 @@ func init() {
 }
 
 func genBytes(c *Ctx) (string, []byte) {
+	if c.Chance(1, 250) {
+		var sb strings.Builder
+		switch c.Draw(4) {
+		case 0: // thousands of siblings
+			sb.WriteString("- wide\n")
+			for i := 0; i < 1500; i++ {
+				fmt.Fprintf(&sb, "  - s%d\n", i)
+			}
+			return "huge-wide", []byte(sb.String())
+		case 1: // very deep nesting
+			for i := 0; i < 500; i++ {
+				sb.WriteString(strings.Repeat(" ", i) + "- d\n")
+			}
+			return "huge-deep", []byte(sb.String())
+		case 2: // a long run of blank lines inside a block and many roots
+			for i := 0; i < 60; i++ {
+				fmt.Fprintf(&sb, "- r%d\n%s  - k\n", i, strings.Repeat("\n", i*7%40))
+			}
+			return "many-roots-and-blank-runs", []byte(sb.String())
+		default: // one single very long line without newline
+			return "one-long-line", []byte("- " + strings.Repeat("x", 200000))
+		}
+	}
 	switch c.Pick(2, 2, 5, 3, 1) {
 	case 0:
 		return "empty", nil
